@@ -467,14 +467,16 @@ SPECS["C18"] = {
                    "clock jumps of 1..5 intervals): emitted values strictly increase and their differences are positive multiples of the interval; (d) contract E-runtime (Go runtime "
                    "re-arming rule, arbitrary lateness up to 3 intervals per tick): no boundary is ever emitted twice, a suppressed tick is only one that would repeat the previous boundary.",
     "bounds": {"quick": "intervals 1 ms, 250 ms, 1 s, 7 s, 10 s, 60 s, 5 min, 1 h, 24 h; 2..3 ticks; runtime contract at 10 s (1..2 ticks) and 1 s (3 ticks)",
-               "thorough": "same (a fully symbolic interval is undecided by the solvers within 5 min: nonlinear mod)"},
+               "thorough": "adds 5 ticks at 10 s, 3 late runtime ticks at 7 s and 4 at 10 s (a fully symbolic interval is undecided by the solvers within 5 min: nonlinear mod)"},
     "outside": ["a symbolic interval (nonlinear arithmetic undecided); intervals other than the listed constants", "monotonic clock readings and time zones", "years outside 1678-2262",
                 "the slow-consumer drop (cap-1 channel + default) is executed only in the order the cooperative scheduler produces"],
     "assumptions": STUBS_COMMON + [MATH_NOTE, TIME_MODEL, "clock.Timer.Stop / Ticker.Stop are no-ops (harness-made timers have no runtime timer behind them)"],
     "jobs": [
         {"pkg": "./internal/util", "harness": "internal/util", "mode": "math", "workers": 8,
          "entries": {"quick": ["VerifC18_1ms_2", "VerifC18_250ms_2", "VerifC18_1s_2", "VerifC18_7s_2", "VerifC18_10s_3", "VerifC18_60s_3", "VerifC18_5m_2", "VerifC18_1h_2", "VerifC18_24h_2",
-                               "VerifC18_RuntimeLate_10s_1", "VerifC18_RuntimeLate_10s_2", "VerifC18_RuntimeLate_1s_3", "VerifC18_Twin"]},
+                               "VerifC18_RuntimeLate_10s_1", "VerifC18_RuntimeLate_10s_2", "VerifC18_RuntimeLate_1s_3", "VerifC18_Twin"],
+                     "thorough": ["VerifC18_1ms_2", "VerifC18_250ms_2", "VerifC18_1s_2", "VerifC18_7s_2", "VerifC18_10s_3", "VerifC18_10s_5", "VerifC18_60s_3", "VerifC18_5m_2", "VerifC18_1h_2", "VerifC18_24h_2",
+                                  "VerifC18_RuntimeLate_10s_1", "VerifC18_RuntimeLate_10s_2", "VerifC18_RuntimeLate_1s_3", "VerifC18_RuntimeLate_7s_3", "VerifC18_RuntimeLate_10s_4", "VerifC18_Twin"]},
          "reach": {"VerifC18_10s_3": ["initial", "tick"], "VerifC18_RuntimeLate_10s_2": ["runtime-tick", "runtime-tick-suppressed"]},
          "twin": {"VerifC18_Twin": True},
          "limits": {"quick": {"timeout": "600s"}, "thorough": {"timeout": "600s"}}},
